@@ -581,3 +581,227 @@ Section StmtInv.
     - subst shapes0. apply G; exact Hsh.
   Qed.
 End StmtInv.
+
+(** ** the tokens [tune_token] prints for types of the domain hold no line break *)
+Definition not_nl (c : ascii) : bool := negb (code c =? 10)%nat.
+
+Lemma iri_char_not_nl c : iri_char c = true -> not_nl c = true.
+Proof.
+  unfold iri_char, not_nl. intros H. apply andb_true_iff in H. destruct H as [H _].
+  apply Nat.ltb_lt in H. apply negb_true_iff. apply Nat.eqb_neq. lia.
+Qed.
+
+Lemma pn_char_not_nl c : pn_char c = true -> not_nl c = true.
+Proof.
+  unfold not_nl. intros H. destruct (code c =? 10)%nat eqn:E; [|reflexivity]. apply Nat.eqb_eq in E.
+  unfold pn_char, is_alpha, is_upper, is_lower, is_digit in H. rewrite E in H. discriminate H.
+Qed.
+
+Lemma forallb_impl {A} (P Q : A -> bool) l : (forall x, P x = true -> Q x = true) -> forallb P l = true -> forallb Q l = true.
+Proof. intros HPQ H. rewrite forallb_forall in *. intros x Hx. apply HPQ, H, Hx. Qed.
+
+Lemma prefixed_not_nl ns u s :
+  ns_ok ns = true -> forallb not_nl u = true -> prefixed ns u s -> forallb not_nl s = true.
+Proof.
+  intros Hns Hu (n & p & rest & Hin & E & _ & _ & ->).
+  destruct (ns_ok_entry ns n p Hns Hin) as (_ & _ & _ & Hvp).
+  assert (Hp : forallb not_nl p = true) by (apply (forallb_impl pn_char); [apply pn_char_not_nl | apply valid_prefix_pn, Hvp]).
+  assert (Hr : forallb not_nl rest = true) by (rewrite E, forallb_app in Hu; apply andb_true_iff in Hu; apply Hu).
+  assert (Hpc : forallb not_nl (p ++ Str ":") = true) by (rewrite forallb_app, Hp; reflexivity).
+  rewrite forallb_app, Hp. cbn [andb]. change (Str ":" ++ ?x) with (":"%char :: x). cbn [forallb].
+  replace (not_nl ":"%char) with true by reflexivity. cbn [andb].
+  apply replace_all_class; assumption.
+Qed.
+
+Lemma plain_not_nl ns u : plain_ok ns u = true -> forallb not_nl u = true.
+Proof. intros H. destruct (plain_ok_parts ns u H) as [Hi _]. exact (forallb_impl _ _ u iri_char_not_nl Hi). Qed.
+
+Lemma corners_not_nl u : forallb not_nl u = true -> forallb not_nl (Str "<" ++ u ++ Str ">") = true.
+Proof. intros H. change (Str "<" ++ u ++ Str ">") with ("<"%char :: u ++ Str ">"). cbn [forallb]. rewrite forallb_app, H. reflexivity. Qed.
+
+Lemma tune_type_not_nl ns t s :
+  ns_ok ns = true -> type_ok ns t = true -> tune_token ns t = Some s -> forallb not_nl s = true.
+Proof.
+  intros Hns H. pose proof (ns_ok_keys ns Hns) as Hk. unfold type_ok in H. unfold tune_token.
+  destruct (prefixb c_STARTING_CHAR_FOR_SHAPE_NAME t) eqn:Ep.
+  - unfold label_ok in H. destruct (strip_label t) as [u|] eqn:Es; [|discriminate].
+    apply strip_label_spec in Es. subst t. pose proof (plain_not_nl ns u H) as Hu.
+    destruct (prefixize_shape_name_spec ns u Hk) as [s0 [E0 Hs0]].
+    change (c_STARTING_CHAR_FOR_SHAPE_NAME ++ Str "<" ++ u ++ Str ">") with (Str "%<" ++ u ++ Str ">") in E0.
+    rewrite E0. intros E; injection E as <-.
+    change (c_SHAPE_LINK_CHAR ++ s0) with ("@"%char :: s0). cbn [forallb]. replace (not_nl "@"%char) with true by reflexivity.
+    cbn [andb]. destruct Hs0 as [[_ ->]|[_ Hp]]; [apply corners_not_nl, Hu | exact (prefixed_not_nl ns u s0 Hns Hu Hp)].
+  - fold kinds. destruct (mem_str t kinds) eqn:Ek.
+    + intros E; injection E as <-. apply mem_str_In in Ek. cbn in Ek. destruct Ek as [<-|[<-|[<-|[]]]]; reflexivity.
+    + pose proof (plain_not_nl ns t H) as Hu. destruct (plain_ok_parts ns t H) as (_ & Hc & _ & _). rewrite Hc. cbn [negb].
+      destruct (prefixize_opt ns t) as [s0|] eqn:Eo.
+      * intros E; injection E as <-. exact (prefixed_not_nl ns t s0 Hns Hu (prefixize_opt_spec ns t s0 Hk Eo)).
+      * intros E; injection E as <-. apply corners_not_nl, Hu.
+Qed.
+
+(** the invariant gives the boolean domain of the serialiser *)
+Lemma st_dom_stmt_ok cfg z s :
+  z_ns z = x_ns cfg -> z_tau z = x_tau cfg -> ns_ok (x_ns cfg) = true ->
+  st_dom cfg s -> stmt_ok z s = true.
+Proof.
+  intros Ez Et Hns (H1 & H2 & H3 & H4). unfold stmt_ok. rewrite Ez, Et, H1. cbn [andb].
+  destruct (s_types s) as [|k0 r] eqn:Ety; [congruence|]. cbn [is_nil negb andb].
+  apply andb_true_iff. split.
+  - destruct (str_eqb (s_prop s) (x_tau cfg)) eqn:E.
+    + apply str_eqb_eq in E. apply forallb_forall. intros k Hk. exact (proj2 (H3 k Hk) E).
+    + apply forallb_forall. intros k Hk. exact (proj1 (H3 k Hk)).
+  - apply forallb_forall. intros k Hk. rewrite Forall_forall in H4. specialize (H4 k Hk).
+    destruct k as [ch pr n tk cd|]; [|destruct H4]. cbn in H4 |- *. destruct ch.
+    + subst tk. reflexivity.
+    + destruct H4 as (ty & Hty & Htk). exact (tune_type_not_nl (x_ns cfg) ty tk Hns Hty Htk).
+Qed.
+
+(** ** A2. the entries of the profile are in the domain when the input is *)
+Lemma class_ok_parts c ns cls : class_ok c ns cls = true ->
+  plain_ok ns cls = true /\ no_at cls = true /\ label_ok ns (shape_name (r_shapes_ns c) cls) = true.
+Proof.
+  unfold class_ok. intros H. apply andb_true_iff in H. destruct H as [H H3].
+  apply andb_true_iff in H. destruct H as [H1 H2]. auto.
+Qed.
+
+Lemma label_type_ok ns k : label_ok ns k = true -> type_ok ns k = true.
+Proof.
+  intros H. unfold type_ok. pose proof H as H'. unfold label_ok in H'.
+  destruct (strip_label k) as [u|] eqn:Es; [|discriminate]. apply strip_label_spec in Es. subst k.
+  replace (prefixb c_STARTING_CHAR_FOR_SHAPE_NAME (Str "%<" ++ u ++ Str ">")) with true by reflexivity. exact H.
+Qed.
+
+Lemma kind_type_ok ns k : In k kinds -> type_ok ns k = true.
+Proof. cbn. intros [<-|[<-|[<-|[]]]]; reflexivity. Qed.
+
+Lemma plain_not_kind ns u k : plain_ok ns u = true -> In k kinds -> u <> k.
+Proof.
+  intros H Hk ->. destruct (plain_ok_parts ns k H) as (_ & Hc & _).
+  pose proof (colon_not_kind k Hc) as E. apply mem_str_In in Hk. congruence.
+Qed.
+
+Section EntriesDom.
+  Variable c : rcfg.
+  Variable ns : nsdict.
+  Variable g : graph.
+  Variable I : insts.
+  Hypothesis Hsns : r_shapes_ns c = c_SHAPES_DEFAULT_NAMESPACE.
+  Hypothesis Hlist : forall id cs cl, In (id, cs) I -> In cl cs -> class_ok c ns cl = true.
+
+  Let cfg := scfg_of c ns.
+
+  Lemma shape_label_ty_ok id p k : p <> r_tau c -> In k (shape_labels I id) -> ty_ok cfg p k.
+  Proof.
+    intros Hp H. unfold shape_labels, classes_of in H. destruct (dget I id) as [cs|] eqn:E; [|destruct H].
+    apply in_map_iff in H. destruct H as [cl [<- Hcl]].
+    destruct (class_ok_parts c ns cl (Hlist id cs cl (DictLemmas.dget_In _ _ _ E) Hcl)) as (_ & _ & Hl).
+    rewrite Hsns in Hl. split; [exact (label_type_ok ns _ Hl)|]. intros E'. contradiction.
+  Qed.
+
+  Lemma contrib_entry_dom dir t i p k :
+    triple_ok c ns t = true -> (dir = Inverse -> r_inverse c = true) ->
+    In k (contrib dir (r_tau c) I t i p) ->
+    plain_ok ns p = true /\ ty_ok cfg p k.
+  Proof.
+    unfold triple_ok. intros Ht Hinv Hk. apply andb_true_iff in Ht. destruct Ht as [Hp Ho].
+    assert (Hkind : forall n : node, In (elem_type n) kinds).
+    { intros n. unfold elem_type. destruct (nk n); cbn; auto. }
+    assert (Hplain : forall u, plain_ok ns u = true -> ty_ok cfg p u).
+    { intros u Hu. split; [exact (plain_type_ok ns u Hu) | intros _; exact Hu]. }
+    destruct dir; cbn [contrib] in Hk.
+    - destruct (str_eqb (nid (ts t)) i && str_eqb (tp t) p) eqn:E; [|destruct Hk].
+      apply andb_true_iff in E. destruct E as [_ E]. apply str_eqb_eq in E. subst p. split; [exact Hp|].
+      unfold keys_direct in Hk. destruct (to t) as [o|ct dt].
+      + destruct (str_eqb (tp t) (r_tau c)) eqn:Etau.
+        * apply andb_true_iff in Ho. destruct Ho as [Ho _]. destruct (class_ok_parts c ns _ Ho) as (Hpo & _).
+          destruct Hk as [<-|Hk]; [exact (Hplain _ Hpo)|].
+          destruct (str_eqb (nid o) c_IRI_ELEM_TYPE || str_eqb (nid o) c_BNODE_ELEM_TYPE) eqn:Eq; [|destruct Hk].
+          exfalso. apply orb_true_iff in Eq. destruct Eq as [Eq|Eq]; apply str_eqb_eq in Eq;
+            apply (plain_not_kind ns (nid o) _ Hpo) in Eq; [exact Eq | cbn; auto | exact Eq | cbn; auto].
+        * apply str_eqb_neq in Etau. destruct Hk as [<-|Hk].
+          -- split; [exact (kind_type_ok ns _ (Hkind o))|]. intros E'. contradiction.
+          -- exact (shape_label_ty_ok _ _ k Etau Hk).
+      + destruct (str_eqb (tp t) (r_tau c)); [destruct Hk|]. destruct Hk as [<-|[]]. exact (Hplain _ Ho).
+    - destruct (to t) as [o|ct dt]; [|destruct Hk].
+      destruct (str_eqb (nid o) i && str_eqb (tp t) p) eqn:E; [|destruct Hk].
+      apply andb_true_iff in E. destruct E as [_ E]. apply str_eqb_eq in E. subst p. split; [exact Hp|].
+      unfold keys_inverse in Hk. destruct (str_eqb (tp t) (r_tau c)) eqn:Etau.
+      + apply andb_true_iff in Ho. destruct Ho as [_ Ho]. rewrite (Hinv eq_refl) in Ho. cbn in Ho.
+        destruct Hk as [<-|Hk]; [exact (Hplain _ Ho)|].
+        destruct (str_eqb (nid (ts t)) c_IRI_ELEM_TYPE) eqn:Eq; [|destruct Hk].
+        exfalso. apply str_eqb_eq in Eq. apply (plain_not_kind ns _ _ Ho) in Eq; [exact Eq | cbn; auto].
+      + apply str_eqb_neq in Etau. destruct Hk as [<-|Hk].
+        * split; [exact (kind_type_ok ns _ (Hkind (ts t)))|]. intros E'. contradiction.
+        * destruct (nk (ts t)); [exact (shape_label_ty_ok _ _ k Etau Hk) | destruct Hk].
+  Qed.
+
+  Lemma occ_pos_entry_dom dir cls p k card :
+    (forall t, In t g -> triple_ok c ns t = true) -> (dir = Inverse -> r_inverse c = true) ->
+    0 < occ dir (r_tau c) I g cls p k card -> plain_ok ns p = true /\ ty_ok cfg p k.
+  Proof.
+    intros Hg Hinv Hpos.
+    destruct (proj1 (occ_pos_iff dir (r_tau c) I g cls p k) (ex_intro _ card Hpos)) as (i & cs & _ & _ & Hc).
+    unfold cnt in Hc. apply sumN_pos_ex in Hc. destruct Hc as [x [Hx Hx0]].
+    apply in_map_iff in Hx. destruct Hx as [t [<- Ht]].
+    rewrite count_in_count_str in Hx0. apply count_str_pos in Hx0.
+    exact (contrib_entry_dom dir t i p k (Hg t Ht) Hinv Hx0).
+  Qed.
+End EntriesDom.
+
+Theorem run_entries_dom c g ns I P C ID :
+  r_shapes_ns c = c_SHAPES_DEFAULT_NAMESPACE ->
+  (forall t, In t g -> triple_ok c ns t = true) ->
+  track (r_tau c) (mode_of c) (r_cap c) g = inl I ->
+  profile (pcfg_of c) I g = inl (P, C, ID) ->
+  forall ce, In ce P -> entries_dom (scfg_of c ns) ce.
+Proof.
+  intros Hsns Hg HT HP ce Hce d p k ck n He.
+  destruct (pd_entry_occ c g ns I P C ID HT HP ce d p k ck n Hce He) as (En & Hpos & Hinv). rewrite En in Hpos.
+  apply (occ_pos_entry_dom c ns g I Hsns) with (dir := dir_of d) (cls := fst ce) (card := ck); [|exact Hg| |exact Hpos].
+  - intros id cs cl Hi Hcl. destruct (listed_class_input c g I id cs cl HT Hi Hcl) as (t & o & Hin & Htp & Hto & Hid).
+    specialize (Hg t Hin). unfold triple_ok in Hg. rewrite Htp, str_eqb_refl, Hto, Hid in Hg.
+    apply andb_true_iff in Hg. destruct Hg as [_ Hg]. apply andb_true_iff in Hg. apply Hg.
+  - intros E. destruct d; [apply Hinv; reflexivity | discriminate E].
+Qed.
+
+(** ** A2 + A1 + A3 at run level, and the headline *)
+Theorem run_C05_dom fa c thr g ns shapes :
+  c05_input_ok c g = true -> run_shapes fa c thr g = inl (ns, shapes) ->
+  C05_dom (z_of c ns) shapes = true /\ WellFormedProofs.refs_closed shapes /\ NoDup (map sh_name shapes).
+Proof.
+  intros Hok H. destruct (c05_input_ok_parts c g Hok) as (Hval & Hsns & ns0 & Hfull & Hns & Hg & Htg & Hnd).
+  pose proof H as H0. apply run_shapes_decompose in H0. destruct H0 as (I & P & C & ID & Hfull' & HT & HP & HS).
+  assert (ns0 = ns) by congruence. subst ns0.
+  assert (Hfree : forallb (sentinel_free (r_tau c)) g = true).
+  { unfold valid_input in Hval. apply andb_true_iff in Hval. destruct Hval as [Hval _].
+    apply andb_true_iff in Hval. destruct Hval as [Hval _]. apply andb_true_iff in Hval. apply Hval. }
+  split; [|split].
+  - unfold C05_dom. cbn [z_ns z_of]. rewrite Hns. cbn [andb]. apply forallb_forall. intros sh Hsh.
+    unfold shape_ok. cbn [z_ns z_of]. apply andb_true_iff. split.
+    + destruct (K3 fa (scfg_of c ns) thr P C shapes HS sh Hsh) as (ce & Hce & Hn & _).
+      rewrite Hn. cbn [x_shapes_ns scfg_of].
+      assert (Hc : class_ok c ns (fst ce) = true).
+      { destruct (profile_class_keys c g I P C ID HT HP ce Hce) as [Hin|(t & o & Hin & Htp & Hto & Hid)]; [exact (Htg _ Hin)|].
+        specialize (Hg t Hin). unfold triple_ok in Hg. rewrite Htp, str_eqb_refl, Hto, Hid in Hg.
+        apply andb_true_iff in Hg. destruct Hg as [_ Hg]. apply andb_true_iff in Hg. apply Hg. }
+      apply (class_ok_parts c ns _ Hc).
+    + apply forallb_forall. intros st Hst.
+      pose proof (shex_dom fa (scfg_of c ns) thr P C shapes
+                    (run_entries_dom c g ns I P C ID Hsns Hg HT HP) HS sh Hsh) as Hall.
+      rewrite Forall_forall in Hall.
+      apply (st_dom_stmt_ok (scfg_of c ns) (z_of c ns) st); [reflexivity | reflexivity | exact Hns | exact (Hall st Hst)].
+  - exact (run_refs_closed fa c thr g ns shapes Hfree Hsns H).
+  - exact (run_labels_NoDup fa c thr g ns shapes Hnd H).
+Qed.
+
+Theorem run_wellformed fa c thr g :
+  c05_input_ok c g = true ->
+  exists text, run_shexc fa c thr g = inl text /\ recognise text = true /\ wellformed_closed text = true.
+Proof.
+  intros Hok. destruct (c05_input_ok_parts c g Hok) as (Hval & _).
+  destruct (run_total fa c thr g Hval) as (ns & shapes & Hr).
+  destruct (run_C05_dom fa c thr g ns shapes Hok Hr) as (Hd & Hrc & Hnd).
+  destruct (run_wellformed_closed fa c thr g ns shapes Hr Hd Hrc Hnd) as [text [Ht Hw]].
+  destruct (run_recognised fa c thr g ns shapes Hr Hd) as [text' [Ht' Hrec]].
+  assert (text' = text) by congruence. subst text'. exists text. auto.
+Qed.
